@@ -24,6 +24,10 @@ type c13Case struct {
 	// Depth > 0: the resolve depth is set (the book then holds a chain nested more deeply than the default limit allows)
 	Depth    int    `json:"depth,omitempty"`
 	DepthVia string `json:"depthvia,omitempty"` // "flag" | "env" | "config"
+	// RawAgain: records of the book that are declared once more further down, with their lines in reverse order and one
+	// more entry. Which declaration a recipe resolves to is not defined, so only the raw export reads this book: it
+	// is defined per entry, in file order.
+	RawAgain []int `json:"rawagain,omitempty"`
 }
 
 var (
@@ -115,13 +119,38 @@ func checkC13(c c13Case, ctx *vCtx) *vFailure {
 	}
 
 	// csv database (raw)
-	out = run("csv", "database")
+	rawBook := c.Book
+	if len(c.RawAgain) > 0 {
+		rawBook.Recs = append([]vRec{}, c.Book.Recs...)
+		rawBook.NoFinalNL = false
+		for _, k := range c.RawAgain {
+			if k >= len(c.Book.Recs) {
+				continue
+			}
+			again := vRec{Head: c.Book.Recs[k].Head, HL: vLayout{EOL: "\n"}}
+			for j := len(c.Book.Recs[k].Lines) - 1; j >= 0; j-- {
+				if ln := c.Book.Recs[k].Lines[j]; ln.Kind == vkEntry {
+					again.Lines = append(again.Lines, ln)
+				}
+			}
+			again.Lines = append(again.Lines, vLine{Kind: vkEntry, Name: "again~", Num: "1.5", L: vLayout{Indent: "  ", Sep: ": ", EOL: "\n"}})
+			at := len(rawBook.Recs) - (k % 2) // at the end, or in front of the last record
+			if at < 0 {
+				at = 0
+			}
+			rawBook.Recs = append(rawBook.Recs[:at], append([]vRec{again}, rawBook.Recs[at:]...)...)
+		}
+		ctx.Label("raw-book-with-repeated-headings")
+		out = run("-d", vWriteFile("c13-rawbook.yaml", rawBook.Render()), "csv", "database")
+	} else {
+		out = run("csv", "database")
+	}
 	rows, err = vReadCSV(out)
 	if err != nil {
 		return vFailf("csv database is not valid RFC 4180: %v\n%s", err, vTrunc(out, 1500))
 	}
 	i = 0
-	for _, rec := range c.Book.Parsed() {
+	for _, rec := range rawBook.Parsed() {
 		for _, e := range rec.Entries {
 			if i >= len(rows) {
 				return vFailf("csv database has %d rows, more are expected (one per entry)", len(rows))
@@ -227,6 +256,9 @@ func genC13(t *rapid.T) c13Case {
 		log.Recs[i].Head = vFmtDay(vZeroDay, layout)
 	}
 	c := c13Case{Book: book, Log: log, Days: days, Layout: layout, TZ: c06Zones[rapid.IntRange(0, len(c06Zones)-1).Draw(t, "tz")]}
+	if len(book.Recs) > 0 && rapid.IntRange(0, 3).Draw(t, "rawagain") == 0 {
+		c.RawAgain = rapid.SliceOfN(rapid.IntRange(0, len(book.Recs)-1), 1, 3).Draw(t, "rawagainat")
+	}
 	if rapid.IntRange(0, 5).Draw(t, "deep") == 0 {
 		// a chain nested more deeply than the default limit allows, and a limit that allows it
 		L := rapid.IntRange(10, 16).Draw(t, "deeplen")
